@@ -396,7 +396,7 @@ Proof.
     assert (Hnot : existsb (fun e => fref_eqb (fst (fst e)) r) acc = false).
     { destruct (existsb (fun e => fref_eqb (fst (fst e)) r) acc) eqn:E; [|reflexivity].
       apply existsb_exists in E. destruct E as (e & He & Heq). apply fref_eqb_eq in Heq.
-      assert (Hr : In r (refs_of acc)) by (unfold refs_of; rewrite <- Heq; apply in_map; exact He).
+      assert (Hr : In r (refs_of acc)) by (unfold refs_of; rewrite <- Heq; apply (in_map (fun e0 : fref * fkind * mfv => fst (fst e0))); exact He).
       specialize (Hacc r Hr). cbn [map fst existsb] in Hacc.
       assert (fref_eqb r r = true) by (apply fref_eqb_eq; reflexivity). rewrite H in Hacc. discriminate. }
     rewrite Hnot.
